@@ -711,6 +711,31 @@ impl<'a> Runner<'a> {
         }
     }
 
+    /// C11: a snapshot upload whose body transfer breaks off must not become the stored snapshot.
+    fn mon_broken_snapshot(&mut self, c: usize) {
+        use crate::http::{HttpReq, CT_SNAPSHOT};
+        let latest = self.clients[c].latest();
+        if latest.is_nil() {
+            return;
+        }
+        let mut req = HttpReq::new("POST", &format!("/v1/client/add-snapshot/{latest}"))
+            .header("X-Client-Id", &self.clients[c].id.to_string())
+            .header("Content-Type", CT_SNAPSHOT)
+            .body_chunks(vec![b"PARTIAL-SNAPSHOT-".to_vec(), vec![7u8; 60], vec![8u8; 60]]);
+        req.fail_after = Some(1 + self.rng.usize(2));
+        let before = self.exec(c, &Req::GetSnapshot);
+        let resp = self.subj.http(&req);
+        let after = self.exec(c, &Req::GetSnapshot);
+        self.cov.hit(format!("broken-snapshot-upload:status={}", resp.status));
+        if after != before {
+            self.v("C11", format!(
+                "an AddSnapshot for version {latest} whose body transfer broke off (answered {}) changed what GetSnapshot returns on {}: {} -> {} (bytes that belong to no completed upload)",
+                resp.status, self.subj.kind.name(), before.short(), after.short()
+            ));
+        }
+        self.refresh_snapshot(c);
+    }
+
     /// C02: an upload whose body transfer breaks off must not be accepted as a (truncated) version.
     fn mon_broken_upload(&mut self, c: usize) {
         use crate::http::{HttpReq, CT_HISTORY};
@@ -1234,6 +1259,9 @@ impl<'a> Runner<'a> {
             }
 
             // ---- per-op global monitors
+            if self.mon.snapget && self.subj.kind.entry == Entry::Http && !self.subj.kind.socket && self.rng.pct(8) {
+                self.mon_broken_snapshot(c);
+            }
             if self.mon.cas && self.subj.kind.entry == Entry::Http && !self.subj.kind.socket && self.clients[c].touched && self.rng.pct(12) {
                 self.mon_broken_upload(c);
             }
